@@ -1,7 +1,7 @@
 From Coq Require Import NArith List Bool.
 Import ListNotations.
 From SK Require Import model.C14_Model proof.C14_Proof proof.C14_Batch proof.C14_Cluster model.C14_CrnModel proof.C14_Crn
-  model.C14_WorkersModel proof.C14_Workers model.C14_BenchModel proof.C14_Bench.
+  model.C14_WorkersModel proof.C14_Workers model.C14_BenchModel proof.C14_Bench model.C14_InputsModel proof.C14_Inputs.
 Local Open Scope N_scope.
 
 (** Pinned key discipline (the repaired code): for EVERY allocator and collector behaviour (every legal
@@ -235,3 +235,13 @@ Theorem C14_bench_is_map :
             (map (single execute dd (map (rule_content pool) rules) true) subs_p).
 Proof. exact bench_is_map. Qed.
 Print Assumptions C14_bench_is_map.
+
+(** parse_input in front of dicts_balance_check (balance_check.py; model coq/model/C14_InputsModel.v): strings and dicts carrying the
+    reaction key are kept, every other item (a dict without the key, None, a number) is skipped; for every worker count the two
+    returned lists are exactly the balanced and the unbalanced ones among the KEPT items, each in input order. *)
+Theorem C14_balance_input :
+  forall (A : Type) (n_jobs : nat) (check : A -> bool) (items : list (bitem * A)),
+  dicts_balance_check n_jobs check items =
+  (filter check (parse_input items), filter (fun r => negb (check r)) (parse_input items)).
+Proof. exact @balance_input. Qed.
+Print Assumptions C14_balance_input.
